@@ -1,0 +1,11 @@
+//go:build verif
+
+package otto
+
+import "reflect"
+
+// Verification hook (build tag verif): exported wrapper around the struct field
+// lookup used by the Go bridge. Adds code only; changes no behaviour.
+
+// VerifFieldIndexByName returns the index path fieldIndexByName resolves name to.
+func VerifFieldIndexByName(t reflect.Type, name string) []int { return fieldIndexByName(t, name) }
